@@ -43,10 +43,13 @@ package registry
 //@   ensures reversed: forall(k, 0 <= k && k < len(a) ==> a[k] == old(a[len(a)-1-k]))
 
 //@ func registry.pkgInfoFromPath -> pkg, err
-//@   trusted packages.Load (go list + type checker) is a dependency: A-load; only the shape of the result is assumed
+//@   props C18 C14
+//@   safety C19
 //@   effect fs-read
-//@   ensures err == nil ==> pkg != nil && pkg.Types != nil && astOk(pkg.Syntax)
-//@   ensures err != nil ==> pkg == nil
+//@   ensures{C14,C18} loader-runs-once-as-a-plain-read: existsEv(i, evIs(i, "golang.org/x/tools/go/packages.Load")) && forallEv(i, j, evIs(i, "golang.org/x/tools/go/packages.Load") && evIs(j, "golang.org/x/tools/go/packages.Load") ==> i == j)
+//@   ensures{C14,C18} loader-configuration: forallEv(i, evIs(i, "golang.org/x/tools/go/packages.Load") ==> evArg(i, 2).Dir == srcDir && evArg(i, 2).Mode == mode && len(evArg(i, 2).BuildFlags) == 0 && len(evArg(i, 2).Env) == 0 && !evArg(i, 2).Tests && evArg(i, 2).Overlay == nil && evArg(i, 2).ParseFile == nil && evArg(i, 2).Context == nil && len(evArg(i, 1)) == 0)
+//@   ensures{C02,C19} loaded-package-usable: err == nil ==> pkg != nil && pkg.Types != nil && astOk(pkg.Syntax)
+//@   ensures{C17,C19} failure-returns-no-package: err != nil ==> pkg == nil
 
 //@ define trimq(s) = uf("strings.Trim", String, s, "\"")
 //@ define namedImport(imp) = imp.Name != nil && imp.Name.Name != "." && imp.Name.Name != "_"
@@ -63,6 +66,7 @@ package registry
 //@   loop 2 invariant files: aliases != nil && fresh(aliases) && otherMapsKept(aliases)
 //@   loop 2 invariant no-dot-or-blank: forall(string(k), dom(aliases, k) ==> aliases[k] != "." && aliases[k] != "_")
 //@   loop 2 invariant harvested-earlier-files: forall(a, b, 0 <= a && a <= rangeIndex1 && 0 <= b && b < len(syntaxTree[a].Imports) && namedImport(syntaxTree[a].Imports[b]) ==> dom(aliases, trimq(syntaxTree[a].Imports[b].Path.Value)))
+//@   loop 2 invariant {C15} later-import-overrides-earlier: rangeIndex >= 0 && namedImport(syntax.Imports[rangeIndex]) ==> aliases[trimq(syntax.Imports[rangeIndex].Path.Value)] == syntax.Imports[rangeIndex].Name.Name
 //@   loop 2 invariant harvested-this-file: rangeIndex >= -1 && forall(b, 0 <= b && b <= rangeIndex && namedImport(syntax.Imports[b]) ==> dom(aliases, trimq(syntax.Imports[b].Path.Value)))
 //@   ensures result: aliases != nil && fresh(aliases) && otherMapsKept(aliases)
 //@   ensures{C11} never-dot-or-blank: forall(string(k), dom(aliases, k) ==> aliases[k] != "." && aliases[k] != "_")
@@ -133,6 +137,7 @@ package registry
 //@   safety C19
 //@   modifies H:registry.Package#.Alias, A:string#
 //@   requires a != nil && b != nil && a.pkg != nil && b.pkg != nil && lvl >= 0
+//@   requires{C11,C14} package-being-added-not-visible-to-searchImport: lvl == 0 ==> forall(string(k), dom(r.imports, k) ==> r.imports[k] != a)
 //@   requires forall(string(k), dom(r.imports, k) ==> r.imports[k] != nil && r.imports[k].pkg != nil)
 //@   loop 1 unroll 3
 //@   -- no termination measure exists on the pinned tree: two paths that sanitise to the same
@@ -363,3 +368,9 @@ package registry
 //@   safety C19
 //@   requires v.vr != nil
 //@   ensures underlying-slice: r <==> isType(v.vr.Type().Underlying(), *types.Slice)
+
+//@ func registry.Var.TypeString -> r
+//@   props C01 C02 C10
+//@   safety C19
+//@   requires v.vr != nil
+//@   ensures rendered-by-go-types-with-the-import-aware-qualifier: r == uf("types.TypeString", String, v.vr.Type(), v.vr, v.imports, v.moqPkgPath, v.Name)
